@@ -30,6 +30,70 @@ pub struct RealResult {
     /// exit code, or 384 + signal number when killed by a signal (the shell's own convention)
     pub status: i32,
     pub tree: BTreeMap<String, Entry>,
+    /// the run was stopped by the stall detector: for STALL_SECS seconds every process of the
+    /// script's process group was asleep and none of them used any CPU time (see `wait_or_stall`)
+    pub stalled: bool,
+}
+
+/// Seconds of complete inactivity (all processes sleeping, CPU time constant) after which a real
+/// run is declared deadlocked. The scripts contain no sleeps, timers or external input, so a
+/// process group in which nobody is runnable can never make progress again; load on the machine
+/// shows up as runnable (R) or uninterruptible (D) processes, never as this state.
+pub const STALL_SECS: u64 = 10;
+
+/// (all asleep, total CPU ticks) of the processes in process group `pgid`.
+fn group_activity(pgid: i32) -> Option<(bool, u64)> {
+    let mut all_asleep = true;
+    let mut ticks = 0u64;
+    let mut seen = false;
+    for e in std::fs::read_dir("/proc").ok()?.flatten() {
+        let name = e.file_name();
+        let Some(pid) = name.to_str().and_then(|s| s.parse::<i32>().ok()) else { continue };
+        let Ok(stat) = std::fs::read_to_string(format!("/proc/{pid}/stat")) else { continue };
+        // pid (comm) state ppid pgrp session tty tpgid flags minflt cminflt majflt cmajflt utime stime
+        let Some(rest) = stat.rfind(')').map(|i| &stat[i + 1..]) else { continue };
+        let f: Vec<&str> = rest.split_whitespace().collect();
+        if f.len() < 13 || f[2].parse::<i32>().ok() != Some(pgid) {
+            continue;
+        }
+        seen = true;
+        if !matches!(f[0], "S" | "Z" | "X") {
+            all_asleep = false;
+        }
+        ticks += f[11].parse::<u64>().unwrap_or(0) + f[12].parse::<u64>().unwrap_or(0);
+    }
+    seen.then_some((all_asleep, ticks))
+}
+
+/// Waits for `child` (leader of its own process group). Returns None when the stall detector
+/// fired (the group has been killed).
+fn wait_or_stall(child: &mut std::process::Child) -> Option<std::process::ExitStatus> {
+    let pgid = child.id() as i32;
+    let start = std::time::Instant::now();
+    let mut quiet_since: Option<(std::time::Instant, u64)> = None;
+    loop {
+        if let Ok(Some(st)) = child.try_wait() {
+            return Some(st);
+        }
+        let el = start.elapsed();
+        std::thread::sleep(std::time::Duration::from_millis(if el.as_millis() < 200 { 2 } else { 50 }));
+        if el.as_secs() < 3 {
+            continue;
+        }
+        match group_activity(pgid) {
+            Some((true, ticks)) => match quiet_since {
+                Some((t0, k0)) if k0 == ticks => {
+                    if t0.elapsed().as_secs() >= STALL_SECS {
+                        unsafe { libc::kill(-pgid, libc::SIGKILL) };
+                        let _ = child.wait();
+                        return None;
+                    }
+                }
+                _ => quiet_since = Some((std::time::Instant::now(), ticks)),
+            },
+            _ => quiet_since = None,
+        }
+    }
 }
 
 /// Child side. Never returns.
@@ -116,10 +180,26 @@ fn run_impl(script: &str, files: &[(String, FileSpec)], yash3: bool) -> Result<R
     } else {
         cmd.arg("__real").arg(&case_path).env_clear();
     }
-    let out = cmd.current_dir(&work).stdin(std::process::Stdio::null()).output().map_err(|e| e.to_string())?;
-    let status = match (out.status.code(), out.status.signal()) {
-        (Some(c), _) => c,
-        (None, Some(s)) => 384 + s,
+    {
+        use std::os::unix::process::CommandExt as _;
+        cmd.process_group(0);
+    }
+    // output goes to files (no reader threads, no pipe-capacity interference)
+    let so_path = dir.path().join("stdout");
+    let se_path = dir.path().join("stderr");
+    let so = std::fs::File::create(&so_path).map_err(|e| e.to_string())?;
+    let se = std::fs::File::create(&se_path).map_err(|e| e.to_string())?;
+    let mut child = cmd.current_dir(&work).stdin(std::process::Stdio::null()).stdout(so).stderr(se).spawn().map_err(|e| e.to_string())?;
+    let waited = wait_or_stall(&mut child);
+    struct Out {
+        stdout: Vec<u8>,
+        stderr: Vec<u8>,
+    }
+    let out = Out { stdout: std::fs::read(&so_path).unwrap_or_default(), stderr: std::fs::read(&se_path).unwrap_or_default() };
+    let stalled = waited.is_none();
+    let status = match waited.map(|w| (w.code(), w.signal())) {
+        Some((Some(c), _)) => c,
+        Some((None, Some(s))) => 384 + s,
         _ => -1,
     };
     let mut tree = BTreeMap::new();
@@ -129,5 +209,6 @@ fn run_impl(script: &str, files: &[(String, FileSpec)], yash3: bool) -> Result<R
         stderr: String::from_utf8_lossy(&out.stderr).into_owned(),
         status,
         tree,
+        stalled,
     })
 }
